@@ -217,11 +217,9 @@ func (x Expr) GetNodes(n gen.Node) (results []gen.Node) {
 							if i < 0 {
 								i = len(tv) + i
 							}
-							var v gen.Node
 							if 0 <= i && i < len(tv) {
-								v = tv[i]
+								results = append(results, tv[i])
 							}
-							results = append(results, v)
 						}
 					}
 				}
@@ -334,7 +332,7 @@ func (x Expr) GetNodes(n gen.Node) (results []gen.Node) {
 			ns, _ := tf.evalWithRoot(stack, prev, n)
 			stack, _ = ns.([]gen.Node)
 			if int(fi) == len(x)-1 { // last one
-				for i := before; i < len(stack); i++ {
+				for i := len(stack) - 1; before <= i; i-- {
 					results = append(results, stack[i])
 				}
 				if before < len(stack) {
@@ -505,20 +503,17 @@ func (x Expr) FirstNode(n gen.Node) (result gen.Node) {
 			}
 			stack = append(stack, prev)
 		case Union:
-			for ui := len(tf) - 1; 0 <= ui; ui-- {
+			last := fi == index(len(x))-1
+			for ui := range tf {
 				u := tf[ui]
+				if !last { // push in reverse so the first member is evaluated first
+					u = tf[len(tf)-1-ui]
+				}
+				has = false
 				switch tu := u.(type) {
 				case string:
 					if tv, ok := prev.(gen.Object); ok {
-						if v, has = tv[tu]; has {
-							if fi == index(len(x))-1 { // last one
-								return v
-							}
-							switch v.(type) {
-							case gen.Object, gen.Array:
-								stack = append(stack, v)
-							}
-						}
+						v, has = tv[tu]
 					}
 				case int64:
 					i := int(tu)
@@ -528,14 +523,17 @@ func (x Expr) FirstNode(n gen.Node) (result gen.Node) {
 						}
 						if 0 <= i && i < len(tv) {
 							v = tv[i]
+							has = true
 						}
-						if fi == index(len(x))-1 { // last one
-							return v
-						}
-						switch v.(type) {
-						case gen.Object, gen.Array:
-							stack = append(stack, v)
-						}
+					}
+				}
+				if has {
+					if last {
+						return v
+					}
+					switch v.(type) {
+					case gen.Object, gen.Array:
+						stack = append(stack, v)
 					}
 				}
 			}
@@ -612,7 +610,7 @@ func (x Expr) FirstNode(n gen.Node) (result gen.Node) {
 			stack, _ = ns.([]gen.Node)
 			if int(fi) == len(x)-1 { // last one
 				if before < len(stack) {
-					result := stack[before]
+					result := stack[len(stack)-1]
 					stack = stack[:before]
 					return result
 				}
